@@ -354,7 +354,7 @@ func cmdCheck(args []string) int {
 			if *only != "" && k != *only {
 				continue
 			}
-			if sp := specs.Funcs[k]; P == "ALL" && sp != nil && sp.Inline && prog.Funcs[k].Parent() != nil {
+			if sp := specs.Funcs[k]; sp != nil && sp.Inline && prog.Funcs[k].Parent() != nil {
 				continue // verified inside its parent
 			}
 			keys = append(keys, k)
@@ -1218,6 +1218,15 @@ func (ex *Exec) addCallers(keys []string) []string {
 		}
 		for _, c := range callers[k] {
 			top := c
+			// an inline closure is verified inside its (outermost non-inline) parent
+			for {
+				f := ex.prog.Funcs[top]
+				csp := ex.specs.Funcs[top]
+				if f == nil || f.Parent() == nil || csp == nil || !csp.Inline {
+					break
+				}
+				top = ex.prog.Keys[f.Parent()]
+			}
 			// a closure without a contract is verified inside its parent when called there; goroutine
 			// bodies are verified on their own
 			if !have[top] {
